@@ -296,3 +296,69 @@ func onEveryPath(f *ssa.Function, keys ...string) bool {
 	}, nil)
 	return !res.Found
 }
+
+// mapDeletes lists the instructions of f that delete from the map held in
+// field mapF: the builtin delete itself, or a call to a helper of the analysed
+// packages (down to depth levels) that contains one.
+func mapDeletes(p *core.Prog, f *ssa.Function, mapF *types.Var, depth int) []ssa.Instruction {
+	var out []ssa.Instruction
+	core.EachInstr(f, func(i ssa.Instruction) {
+		if c, ok := core.IsBuiltin(i, "delete"); ok && core.LoadedField(c.Call.Args[0]) == mapF {
+			out = append(out, i)
+			return
+		}
+		if c, ok := i.(*ssa.Call); ok && depth > 0 {
+			if g := c.Call.StaticCallee(); g != nil && p.InAnalysed(g) && len(g.Blocks) > 0 && g != f {
+				if len(mapDeletes(p, g, mapF, depth-1)) > 0 {
+					out = append(out, i)
+				}
+			}
+		}
+	})
+	return out
+}
+
+// lookupSite is one place where f looks a peer up in the root list: a direct
+// RootPeerList.Get call, or a call of a local closure whose body does the
+// lookup with one of its parameters as the key (Key is then the argument).
+type lookupSite struct {
+	At  ssa.Instruction
+	Key ssa.Value
+}
+
+func peerLookups(f *ssa.Function) []lookupSite {
+	var out []lookupSite
+	core.EachInstr(f, func(i ssa.Instruction) {
+		if c, ok := core.IsCall(i, "RootPeerList.Get"); ok {
+			out = append(out, lookupSite{i, core.CallArgs(c)[1]})
+			return
+		}
+		c, ok := i.(*ssa.Call)
+		if !ok {
+			return
+		}
+		mc, ok := c.Call.Value.(*ssa.MakeClosure)
+		if !ok {
+			return
+		}
+		cf, ok := mc.Fn.(*ssa.Function)
+		if !ok {
+			return
+		}
+		for _, g := range core.CallsIn(cf, "RootPeerList.Get") {
+			key := core.CallArgs(g)[1]
+			for k, prm := range cf.Params {
+				if key == ssa.Value(prm) && k < len(c.Call.Args) {
+					out = append(out, lookupSite{i, c.Call.Args[k]})
+				}
+			}
+		}
+	})
+	return out
+}
+
+// onEveryPathPred: no return of f is reachable from its entry avoiding pred.
+func onEveryPathPred(f *ssa.Function, pred core.InstrPred) bool {
+	res := core.ReachAvoiding(f, nil, core.IsReturn, pred, nil)
+	return !res.Found
+}
